@@ -8,9 +8,11 @@ package main
 
 import (
 	"bytes"
+	"crypto/rand"
 
 	"verif/harness/cborx"
 
+	"github.com/veraison/go-cose"
 	"github.com/veraison/psatoken"
 )
 
@@ -175,6 +177,33 @@ func init() {
 			u := &cborx.Enc{}
 			u.Tag(18).Arr(4).Bstr([]byte{}).Map(1).Int(1).Int(int64(algOf[alg])).Bstr(w.enc["cA"]).Bstr(sb)
 			present("alg-unprotected", alg, u.Bytes())
+			// ... the same, but genuinely signed by the key holder over the Sig_structure of that very message
+			// (empty protected bucket): still "no algorithm in its protected header", so nothing may verify
+			for _, prot := range [][]byte{{}, {0xa0}} {
+				for _, tbsProt := range [][]byte{{}, {0xa0}} {
+					tbs := &cborx.Enc{}
+					tbs.Arr(4).Tstr("Signature1").Bstr(tbsProt).Bstr([]byte{}).Bstr(w.enc["cA"])
+					rs, err := cose.NewSigner(algOf[alg], w.kr[alg]["k1"].priv)
+					if err != nil {
+						fatal("NewSigner: %v", err)
+					}
+					sig, err := rs.Sign(rand.Reader, tbs.Bytes())
+					if err != nil {
+						fatal("raw signing: %v", err)
+					}
+					for _, unprot := range []int{1, 0} { // alg in the unprotected bucket / nowhere
+						u := &cborx.Enc{}
+						u.Tag(18).Arr(4).Bstr(prot)
+						if unprot == 1 {
+							u.Map(1).Int(1).Int(int64(algOf[alg]))
+						} else {
+							u.Map(0)
+						}
+						u.Bstr(w.enc["cA"]).Bstr(sig)
+						present("alg-unprotected-signed", alg, u.Bytes())
+					}
+				}
+			}
 			present("nil-payload", alg, assembleSign1(protectedBytes(alg), nil, true, sb))
 			present("empty-sig", alg, assembleSign1(protectedBytes(alg), w.enc["cA"], false, []byte{}))
 		}
